@@ -53,7 +53,7 @@ func Determinism(r *core.Run, sc *Scope, table string) {
 					name = name[:i]
 				}
 				if unorderedRangers[name] {
-					o := r.Add("R-DET/N1", siteKey(f, "unordered "+shortName(name)+" on "+recvStr(x)), x.Pos(), shortName(name)+" (unspecified order)")
+					o := r.Add("R-DET/N1", siteKey(f, "unordered "+shortName(name)), x.Pos(), shortName(name)+" (unspecified order)")
 					var body *ast.BlockStmt
 					for _, a := range x.Args {
 						if fl, ok := a.(*ast.FuncLit); ok {
